@@ -23,11 +23,11 @@ struct State
   bool ctrl_done;
 } st;
 
-enum { P_STOP_SAW_INSIDE = 0, P_BODY_AFTER_START, P_EXPECT_RAN, P_STOP_WHILE_RUNNING, P_REDUNDANT_START, P_REDUNDANT_STOP, P_DTOR_WHILE_RUNNING, P_WORKERS_BUSY };
+enum { P_STOP_SAW_INSIDE = 0, P_BODY_AFTER_START, P_EXPECT_RAN, P_STOP_WHILE_RUNNING, P_REDUNDANT_START, P_REDUNDANT_STOP, P_DTOR_WHILE_RUNNING, P_WORKERS_BUSY, P_CROWD };
 int blockers_started, blockers_released;
 unsigned long long dtor_invoked_at;
 const char *probe_names[] = {"stop_invoked_while_body_inside", "body_ran_after_start", "expect_progress_executed",
-                             "stop_while_running", "redundant_start", "redundant_stop", "destroy_while_running", "every_tasking_thread_held_by_other_work", nullptr};
+                             "stop_while_running", "redundant_start", "redundant_stop", "destroy_while_running", "every_tasking_thread_held_by_other_work", "sixteen_or_more_other_loops_alive", nullptr};
 const char *fault_names[] = {"spurious_wakeup", "clock_jump", "timed_wait_expired_while_peers_stalled", nullptr};
 
 void reset()
@@ -86,7 +86,11 @@ void do_plan(int tier)
   st.owns_thread = !task;
   unsigned lane = rksim_lane_bit();
   plan.busy_workers = task && plan.init_threads >= 2 && !plan.ctrl_in_loop && (lane == LANE_INTERNAL || lane == LANE_TBB) && sim_plan(5) == 0;
-  sim_set_step_cap(400000);
+  // drawn last: a crowd of other loops (16 or more: whatever the loops share per process is shared by at least two of them)
+  plan.crowd = !plan.busy_workers && sim_plan(10) == 9 ? 16 + (int)sim_plan(4) : 0;
+  if (plan.crowd)
+    sim_probe(P_CROWD);
+  sim_set_step_cap(plan.crowd ? 1200000 : 400000);
 }
 
 void check()
@@ -120,8 +124,8 @@ void describe(char *buf, size_t n)
 {
   static const char *opn[] = {"start", "stop", "idle", "expect-progress"};
   static const char *ln[] = {"AUTO", "THREAD", "TASK"};
-  int k = snprintf(buf, n, "{\"launch\": \"%s\", \"init_threads\": %d, \"body_cost\": %d, \"spurious_wakeups\": %d, \"controller_is_another_loops_body\": %d, \"tasking_threads_held_by_other_work\": %d, \"script\": [",
-                   ln[plan.launch], plan.init_threads, plan.body_cost, plan.spurious, plan.ctrl_in_loop, plan.busy_workers);
+  int k = snprintf(buf, n, "{\"launch\": \"%s\", \"init_threads\": %d, \"body_cost\": %d, \"spurious_wakeups\": %d, \"controller_is_another_loops_body\": %d, \"tasking_threads_held_by_other_work\": %d, \"other_loops_alive\": %d, \"script\": [",
+                   ln[plan.launch], plan.init_threads, plan.body_cost, plan.spurious, plan.ctrl_in_loop, plan.busy_workers, plan.crowd);
   for (int i = 0; i < plan.nops && k < (int)n - 40; i++) {
     if (plan.ops[i].kind == C03_OP_IDLE)
       k += snprintf(buf + k, n - k, "%s\"idle(%d)\"", i ? "," : "", plan.ops[i].arg);
@@ -224,6 +228,7 @@ void c03_body_exit()
 // S2: after start() returned (and no stop() since) the body runs again within the bound, in a
 // fault-free fair phase
 static sem_t blocker_sem;  // modelled by the simulator; a thread blocked on it uses up none of the run's step budget
+void c03_crowd_body() {}
 void c03_blocker()
 {
   if (sim_self() == 0)
